@@ -63,7 +63,7 @@ NOTES = {
  'C18-j1': 'missed at first; the application may publish from inside the missing-data callback (re-entrancy); caught since',
 }
 rows = []
-for d in sorted(glob.glob(ROOT + '/C*-[mnkj]*')):
+for d in sorted(glob.glob(ROOT + '/C*-[mnkjh]*')):
     sid = os.path.basename(d)
     prop = sid.split('-')[0]
     notes = open(os.path.join(d, 'notes.md')).read() if os.path.exists(os.path.join(d, 'notes.md')) else ''
